@@ -282,12 +282,20 @@ class top_conv(Conv):
                 arg_pt = rec(pt.rhs.arg)
                 return pt.transitive(fun_pt.combination(arg_pt))
             elif pt.rhs.is_abs():
-                v, body = t.dest_abs()
+                # The top-level conversion may have replaced t (by another
+                # abstraction, or t may not have been an abstraction at all):
+                # continue with the body of the current right side.
+                v, body = pt.rhs.dest_abs()
                 body_pt = rec(body)
                 if body_pt.is_reflexive():
                     return pt
                 else:
-                    return pt.transitive(body_pt.abstraction(v))
+                    # As in abs_conv: the conversion fails if it produced
+                    # assumptions containing the bound variable.
+                    try:
+                        return pt.transitive(body_pt.abstraction(v))
+                    except InvalidDerivationException:
+                        raise ConvException("top_conv")
             else:
                 return pt
 
@@ -318,7 +326,10 @@ class top_sweep_conv(Conv):
                 if body_pt.is_reflexive():
                     return pt
                 else:
-                    return body_pt.abstraction(v)
+                    try:
+                        return body_pt.abstraction(v)
+                    except InvalidDerivationException:
+                        raise ConvException("top_sweep_conv")
             else:
                 return pt
 
